@@ -212,19 +212,31 @@ func c18RunFlight(m *vk.M, idx int, sc c18FScn) bool {
 		// entered, and a panicked predecessor on that key has demonstrably finished (it is
 		// back at its caller, stamp recorded) will never execute — that is the violation.
 		// Anything else that is merely slow/blocked stays inconclusive.
-		if sc.Kind == "lc" {
-			for ci := range waitKey {
-				k := atomic.LoadInt32(&waitKey[ci])
-				if k == 0 || atomic.LoadInt32(&entered[ci]) != 0 {
+		// The same holds for a single flight ("a later call always executes afresh"; overlapping
+		// callers receive the result): a caller still parked in the flight group although no
+		// callback of its key is running and the panicked call is back at its caller.
+		frame, what := "syncx.(*lockedGroup).Do", "LockedCalls.Do"
+		if sc.Kind == "sf" {
+			frame, what = "syncx.(*flightGroup).createCall", "SingleFlight.Do/DoEx"
+		}
+		for ci := range waitKey {
+			k := atomic.LoadInt32(&waitKey[ci])
+			if k == 0 || atomic.LoadInt32(&entered[ci]) != 0 {
+				continue
+			}
+			if done := atomic.LoadInt64(&panicDone[k-1]); done != 0 && atomic.LoadInt32(&inFn[k-1]) == 0 {
+				parked := vk.GoroutinesIn(frame)
+				if len(parked) == 0 {
 					continue
 				}
-				if done := atomic.LoadInt64(&panicDone[k-1]); done != 0 && atomic.LoadInt32(&inFn[k-1]) == 0 {
-					parked := len(vk.GoroutinesIn("syncx.(*lockedGroup).Do"))
-					m.Violate("C18:lockedcalls:blocked-after-panic", desc,
-						"client %d has been inside LockedCalls.Do(k%d) for more than %v without its callback being entered, although no callback of that key is running and the call of client %d, whose callback panicked, returned to its caller at stamp %d: calls behind a panicked call never execute (%d goroutines parked in lockedGroup.Do)",
-						ci, k-1, c18Watchdog, atomic.LoadInt32(&panicBy[k-1])-1, done, parked)
-					return false
+				g := parked[0]
+				if len(g) > 500 {
+					g = g[:500]
 				}
+				m.Violate("C18:"+map[string]string{"sf": "singleflight", "lc": "lockedcalls"}[sc.Kind]+":blocked-after-panic", desc,
+					"client %d has been inside %s(k%d) for more than %v without its callback being entered and without returning, although no callback of that key is running and the call of client %d, whose callback panicked, returned to its caller at stamp %d: calls behind a panicked call never execute / never receive a result (%d goroutines parked in %s)\n%s",
+					ci, what, k-1, c18Watchdog, atomic.LoadInt32(&panicBy[k-1])-1, done, len(parked), frame, g)
+				return false
 			}
 		}
 		m.Inconclusive("case %d (%s): clients did not finish within %v", idx, sc.Kind, c18Watchdog)
